@@ -148,7 +148,40 @@ pub broadcast proof fn b_cons_contains<A>(a: A, s: Seq<A>, x: A)
     if x == a { assert(t[0] == x); }
     if s.contains(x) { let i = choose|i: int| 0 <= i < s.len() && s[i] == x; assert(t[i+1] == x); }
 }
-pub broadcast group filter_lemmas { b_filter_ext, b_filter_contains, b_filter_no_dup, b_mask_filter, b_cons_contains }
+proof fn lemma_filter_remove_one<A>(s: Seq<A>, k: A)
+    requires s.no_duplicates(),
+    ensures s.filter(|x: A| x != k).len() == (if s.contains(k) { s.len() - 1 } else { s.len() as int }),
+    decreases s.len()
+{
+    reveal(Seq::filter);
+    let p = |x: A| x != k;
+    if s.len() > 0 {
+        let t = s.drop_last();
+        lemma_filter_remove_one(t, k);
+        if s.last() == k {
+            if t.contains(k) { let j = choose|j: int| 0 <= j < t.len() && t[j] == k; assert(s[j] == s[s.len() - 1]); }
+            assert(s.contains(k)) by { assert(s[s.len() - 1] == k); }
+        } else {
+            if s.contains(k) { let j = choose|j: int| 0 <= j < s.len() && s[j] == k; assert(t[j] == k); }
+            if t.contains(k) { let j = choose|j: int| 0 <= j < t.len() && t[j] == k; assert(s[j] == k); }
+        }
+    }
+}
+pub broadcast proof fn b_filter_remove_one<A>(s: Seq<A>, p: spec_fn(A) -> bool, k: A)
+    requires s.no_duplicates(), forall|x: A| #[trigger] p(x) <==> x != k,
+    ensures #![trigger s.filter(p), s.contains(k)] s.filter(p).len() == (if s.contains(k) { s.len() - 1 } else { s.len() as int }),
+{ lemma_filter_remove_one(s, k); lemma_filter_ext(s, p, |x: A| x != k); }
+proof fn lemma_cons_no_dup<A>(a: A, s: Seq<A>)
+    requires s.no_duplicates(), !s.contains(a),
+    ensures (seq![a] + s).no_duplicates(),
+{
+    let t = seq![a] + s;
+    assert forall|i: int, j: int| 0 <= i < j < t.len() implies t[i] != t[j] by {
+        if i == 0 { assert(s[j - 1] == t[j]); assert(s.contains(t[j])); }
+        else { assert(t[i] == s[i - 1] && t[j] == s[j - 1]); }
+    }
+}
+pub broadcast group filter_lemmas { b_filter_remove_one, b_filter_ext, b_filter_contains, b_filter_no_dup, b_mask_filter, b_cons_contains }
 
 struct LruCache<K: Clone + Eq + std::hash::Hash, V> {
     capacity: usize,
@@ -168,6 +201,8 @@ impl<K: Clone + Eq + std::hash::Hash, V> LruCache<K, V> {
         &&& self.order@.no_duplicates()
         &&& forall|k: K| self.order@.contains(k) <==> self.map@.contains_key(k)
         &&& self.map@.len() <= self.capacity
+        &&& self.order@.len() == self.map@.len()
+        &&& self.map@.dom().finite()
     }
 
     fn get(&mut self, key: &K) -> (r: Option<&V>)
@@ -179,6 +214,7 @@ impl<K: Clone + Eq + std::hash::Hash, V> LruCache<K, V> {
             old(self).map@.contains_key(*key) ==> final(self).order@ == seq![*key] + old(self).order@.filter(|k: K| k != *key),
             !old(self).map@.contains_key(*key) ==> final(self).order@ == old(self).order@,
     {
+        let r__ = {
         broadcast use filter_lemmas;
         if self.map.contains_key(key) {
             // Move to front (most recently used)
@@ -188,6 +224,23 @@ impl<K: Clone + Eq + std::hash::Hash, V> LruCache<K, V> {
         } else {
             None
         }
+        };
+        proof {
+            let o = old(self).order@;
+            let p = |k: K| k != *key;
+            if old(self).map@.contains_key(*key) {
+                assert(self.order@ == seq![*key] + o.filter(p));
+                lemma_filter_no_dup(o, p);
+                lemma_filter_contains(o, p, *key);
+                lemma_cons_no_dup(*key, o.filter(p));
+                lemma_filter_remove_one(o, *key);
+                assert forall|k: K| self.order@.contains(k) <==> self.map@.contains_key(k) by {
+                    lemma_filter_contains(o, p, k);
+                    b_cons_contains(*key, o.filter(p), k);
+                }
+            }
+        }
+        r__
     }
 
     fn put(&mut self, key: K, value: V)
@@ -206,6 +259,8 @@ impl<K: Clone + Eq + std::hash::Hash, V> LruCache<K, V> {
                 && final(self).map@ == old(self).map@.remove(old(self).order@.last()).insert(key, value)
                 && final(self).order@ == seq![key] + old(self).order@.drop_last(),
     {
+        let ghost cap0 = self.capacity;
+        {
         broadcast use filter_lemmas;
         // Handle zero capacity
         if self.capacity == 0 {
@@ -224,6 +279,46 @@ impl<K: Clone + Eq + std::hash::Hash, V> LruCache<K, V> {
 
         self.map.insert(key.clone(), value);
         self.order.push_front(key);
+        };
+        proof {
+            let o = old(self).order@;
+            let m0 = old(self).map@;
+            let p = |k: K| k != key;
+            if cap0 > 0 {
+                if m0.contains_key(key) {
+                    lemma_filter_no_dup(o, p);
+                    lemma_filter_contains(o, p, key);
+                    lemma_cons_no_dup(key, o.filter(p));
+                    lemma_filter_remove_one(o, key);
+                    assert forall|k: K| self.order@.contains(k) <==> self.map@.contains_key(k) by {
+                        lemma_filter_contains(o, p, k);
+                        b_cons_contains(key, o.filter(p), k);
+                    }
+                } else if m0.len() < cap0 {
+                    lemma_cons_no_dup(key, o);
+                    assert forall|k: K| self.order@.contains(k) <==> self.map@.contains_key(k) by {
+                        b_cons_contains(key, o, k);
+                    }
+                } else {
+                    let l = o.last();
+                    let t = o.drop_last();
+                    assert(o.contains(l)) by { assert(o[o.len() - 1] == l); }
+                    assert(t.no_duplicates());
+                    assert(!t.contains(l)) by {
+                        if t.contains(l) { let jx = choose|jx: int| 0 <= jx < t.len() && t[jx] == l; assert(o[jx] == o[o.len() - 1]); }
+                    }
+                    assert(!t.contains(key)) by {
+                        if t.contains(key) { let jx = choose|jx: int| 0 <= jx < t.len() && t[jx] == key; assert(o[jx] == key); assert(o.contains(key)); }
+                    }
+                    lemma_cons_no_dup(key, t);
+                    assert forall|k: K| self.order@.contains(k) <==> self.map@.contains_key(k) by {
+                        b_cons_contains(key, t, k);
+                        if t.contains(k) { let jx = choose|jx: int| 0 <= jx < t.len() && t[jx] == k; assert(o[jx] == k); assert(o.contains(k)); }
+                        if o.contains(k) && k != l { let jx = choose|jx: int| 0 <= jx < o.len() && o[jx] == k; assert(jx < o.len() - 1); assert(t[jx] == k); }
+                    }
+                }
+            }
+        }
     }
 }
 
